@@ -279,6 +279,26 @@ def gen_server_trace(rng, tid):
                         o["c"] = uname
                         meta.append((len(ops), "authz", (nme, perms, sid, tpc)))
                         ops.append(o)
+    # ---- part D: the record in force survives a restart (also "no record"), and a logged-out connection is unauthenticated
+    uname = "durable"
+    perms = rng.choice([narrow(), rand_perms(rng)])
+    ops.append({"op": "create_user", "user": uname, "password": "password-d", "perms": perms})
+    final = rng.choice([None, None, narrow(), weaken(rng, perms)])
+    ops.append({"op": "update_permissions", "uid": uname, "perms": final})
+    ops.append({"op": "restart"})
+    ops.append({"op": "login", "c": uname, "user": uname, "password": "password-d"})
+    for nme in ("send", "poll", "get_topic", "get_stream", "get_streams", "get_users", "create_stream"):
+        for sid in (1, 2):
+            o = op_instance(nme, sid, rng.choice([1, 2]))
+            o["c"] = uname
+            meta.append((len(ops), "authz", (nme, final, sid, o["topic"])))
+            ops.append(o)
+    ops.append({"op": "logout", "c": uname})
+    for nme in rng.sample(sorted(n for n in OPCODE if n not in PUBLIC and n != "logout"), 8):
+        o = op_instance(nme, rng.choice([1, 2]), rng.choice([1, 2]))
+        o["c"] = uname
+        meta.append((len(ops), "unauth", nme))
+        ops.append(o)
     return {"id": tid, "cfg": {"req": 1000, "seg_size": 1000000, "cache": False}, "ops": ops, "meta": meta}
 
 
@@ -309,7 +329,7 @@ def run_server(out, tier, seed):
                 unauth_checked += 1
                 if not (o.get("r") == "err" and o.get("name") in ("unauthenticated",)):
                     if reported < 3:
-                        out.violation("unauth-%s-%s" % (t["id"], data), {"kind": "spec-monitor", "mode": "srv", "what": "request answered on a connection that never authenticated",
+                        out.violation("unauth-%s-%s" % (t["id"], data), {"kind": "spec-monitor", "mode": "srv", "what": "request answered on a connection that is not authenticated (never logged in, or logged out)",
                                                                         "command": data, "code": OPCODE[data], "response": o,
                                                                         "trace": {"id": t["id"], "cfg": t["cfg"], "ops": t["ops"][:i + 1]}})
                         reported += 1
